@@ -243,17 +243,23 @@ fn field() -> impl Strategy<Value = (u8, u8)> {
     (0u8..99, prop_oneof![7 => Just(0u8), 3 => 1u8..=8])
 }
 
-/// Random tables. `max_rows` bounds the common case; `allow_i32_key` is the exclusion switch
-/// for the Int32-key finding (false = the random volume only uses UInt32 keys).
-pub fn params(max_rows: usize, big_rows: usize, allow_i32_key: bool) -> impl Strategy<Value = Params> {
-    let rows = prop_oneof![
+/// Row-count distribution of the main random volume
+pub fn rows_small(max_rows: usize, tail: usize) -> BoxedStrategy<usize> {
+    prop_oneof![
         1 => Just(0usize),
         1 => Just(1usize),
         4 => 2usize..10,
         6 => 10usize..=max_rows.max(10),
-        // rare large table (narrow schemas keep them cheap, see below)
-        1 => max_rows..=big_rows.max(max_rows),
-    ];
+        // rare larger table (narrow schemas keep them cheap, see below)
+        1 => max_rows..=tail.max(max_rows),
+    ]
+    .boxed()
+}
+
+/// Random tables. Tables with more than `max_rows` rows are narrowed to at most 8 columns;
+/// `allow_i32_key` is the exclusion switch for the Int32-key finding (false = the random volume
+/// only uses UInt32 keys).
+pub fn params(rows: BoxedStrategy<usize>, max_rows: usize, allow_i32_key: bool) -> impl Strategy<Value = Params> {
     let nfields = prop_oneof![2 => 1usize..=4, 4 => 5usize..=12, 2 => 13usize..=24];
     (
         (
